@@ -34,7 +34,7 @@ def register_all(w):
         "ensures": ["same(result, ast.Call(ast.Name('Aggregate'), "
                     "[seq, ast.Constant(0), lambda_of(lambda_string)], []))"],
         "raises": {},
-        "fresh": "shallow",
+        "fresh": "node",       # a fresh Call node (its argument list is built by the callee's caller)
         "properties": ["C19"],
     })
 
